@@ -34,6 +34,13 @@ func init() {
 		c19ValidateOrder(c)
 		// root-before-unpad
 		if f := p.Func("consensus/propeller", "", "ConstructMessageFromUnits"); f != nil {
+			// the body may live in an unexported worker the exported function delegates to: re-anchor on the function that
+			// actually calls UnpadMessage
+			if dss := p.deepSites(f, nameMatcher("UnpadMessage"), 2); len(dss) > 0 && dss[0].Site.Instr.Parent() != f {
+				if g := rootOf(dss[0].Site.Instr.Parent()); p.calledOnlyFrom(g, "ConstructMessageFromUnits", 0) {
+					f = g
+				}
+			}
 			un := findSite(f, "UnpadMessage")
 			if un == nil {
 				c.viol("root-before-unpad", "ConstructMessageFromUnits", p.Pos(fnPos(f)), "UnpadMessage is no longer called")
